@@ -276,9 +276,18 @@ SCENARIOS["slow_setup||debug_call"] = [[("setup_sp",), ("call_d", 1)], [("call_d
 SCENARIOS["slow_setup||slow_setup"] = [[("setup_sp",), ("call_d", 1)], [("setup_sp",), ("call_d", 2)]]
 DEBUG_ON = {"slow_setup||debug_call", "slow_setup||slow_setup"}
 FRESH_SRC = '''
+@xn(resource=M, priority=2)
+def use_p(p, x):
+    return p + x
+
+@xn(resource=M, priority=3)
+def inc_p(x):
+    return x + 1
+
 @dag
 def shared_f(x):
-    return use(prep(), x)
+    # (priorities: the compound-priority table of the object is compared with a freshly built one after the scenario)
+    return inc_p(use_p(prep(), x))
 
 @xn(setup=True, resource=M)
 def slow_prep():
@@ -367,6 +376,17 @@ def run_scenario(ops: List[List[tuple]], prefix, line_mode: bool, rv: int = 0, p
     s.run()
     final = [[finalize(o) for o in out] for out in outs]
     s.final = final
+    s.tables_differ = []
+    used = {"call_f": "shared_f", "setup_sp": "shared_sp", "setup_t": "shared_2s", "call_2s": "shared_2s"}
+    names = sorted({used[op[0]] for th in ops for op in th if op[0] in used})
+    if names:
+        # the tables of a DAG object after concurrent use equal those of the same DAG built just now by one thread
+        loc2 = dict(lib())
+        exec(compile(FRESH_SRC, "<c16-fresh-ref>", "exec"), loc2)  # noqa: S102
+        for nm in names:
+            got, ref = FRESH[nm].graph_ids, loc2[nm].graph_ids
+            if dict(got.compound_priority) != dict(ref.compound_priority):
+                s.tables_differ.append((nm, dict(got.compound_priority), dict(ref.compound_priority)))
     s.late_runs = []
     if any(op[0] in ("setup_t", "call_2s") for th in ops for op in th):
         # a setup node entered AFTER an operation that stores its result had already ended: the stored result was lost
@@ -466,6 +486,9 @@ def run_case(acc, c, only_prefix=None):
                     acc.extra["stopped_after_thread_hang"] = 1
                     raise StopShard()
                 continue
+            for nm, got_t, ref_t in getattr(s, "tables_differ", []):
+                acc.violation(V("tables_changed_by_concurrent_use", f"scenario {c['scenario']} ({c['mode']}): compound priorities of {nm} after the scenario {got_t}, "
+                                f"freshly built {ref_t}", scenario=c["scenario"]), case, tuple(x for _, _, x in s.choices), None, "")
             twice = sorted(set(getattr(s, "late_runs", [])))
             if twice:
                 acc.violation(V("setup_node_ran_twice", f"scenario {c['scenario']} ({c['mode']}): setup node(s) {twice} of one DAG object executed again AFTER an operation that "
